@@ -480,6 +480,27 @@ func (e *encWorker) tamper(doc []byte) []byte {
 		out := bytes.Clone(doc)
 		out[len(out)-1-int(e.w.Seed%16)] ^= 0x40
 		return out
+	// the early exits of the header parser (each leaves Decrypt on another path, with the pooled buffer in hand)
+	case "scheme":
+		out := bytes.Clone(doc)
+		if len(out) > 0 {
+			out[0] ^= 0x01 // first line is no longer the scheme name
+		}
+		return out
+	case "header-cut":
+		// cut inside the second line: the header never completes
+		if i := bytes.IndexByte(doc, '\n'); i >= 0 && i+5 < len(doc) {
+			return bytes.Clone(doc[:i+5])
+		}
+		return doc
+	case "manifest":
+		out := bytes.Clone(doc)
+		if i := bytes.IndexByte(out, '\n'); i >= 0 && i+1 < len(out) {
+			out[i+1] = '[' // the manifest line is no longer a JSON object
+		}
+		return out
+	case "empty":
+		return nil
 	}
 	return doc
 }
